@@ -137,8 +137,21 @@ pub fn run(ctx: &Ctx, rep: &mut Report) {
         let oob_before = sudachi::verif::counters();
         let n_texts = if ctx.stage == "miri" { 4 } else if size_class >= 2 { 60 } else { 20 };
         for ti in 0..n_texts {
-            let text = match rng.below(5) {
+            let text = match rng.below(6) {
                 0 => rng.pick(&keys).clone(),
+                // a NUL strictly inside an occurrence of a key (between two of its characters, or inside a longer key
+                // that extends a shorter one): nothing beyond the NUL may match
+                5 => {
+                    let k: Vec<char> = rng.pick(&keys).chars().collect();
+                    let at = if k.len() > 1 { 1 + rng.below(k.len() - 1) } else { k.len() };
+                    let mut t: String = k[..at].iter().collect();
+                    t.push('\u{0}');
+                    t.extend(k[at..].iter());
+                    if rng.chance(1, 2) {
+                        t.push_str(rng.pick(&keys[..]).as_str());
+                    }
+                    t
+                }
                 // NUL is the terminator label inside the double array
                 4 => format!("{}\u{0}{}\u{0}", rng.pick(&keys), rng.pick(&keys)),
                 1 => format!("{}{}", rng.pick(&keys), rng.pick(&keys)),
